@@ -392,11 +392,20 @@ func (e *FaultErr) Unwrap() error   { return e.Inner }
 func (e *FaultErr) Timeout() bool   { return e.timeout }
 func (e *FaultErr) Temporary() bool { return e.timeout }
 
+// ExtraInner lists further errors an injected error may wrap; the scenarios
+// add error values of the LIBRARY's own exported error types here (a tunnel or
+// bridge reader surfaces another decoder's error).
+var ExtraInner []func() error
+
 // NewFaultErr draws the kind of the next injected error from the tape.
 func NewFaultErr(c *sim.Ctx, what string) (*FaultErr, string) {
 	e := &FaultErr{Msg: what}
 	kind := "plain"
-	switch c.T.Pick(6, 1, 1, 1, 1, 1, 1, 1) {
+	switch c.T.Pick(6, 1, 1, 1, 1, 1, 1, 1, 1) {
+	case 8:
+		if len(ExtraInner) > 0 {
+			e.Inner, kind = ExtraInner[c.T.Int(len(ExtraInner))](), "wraps-an-error-of-the-library's-own-type"
+		}
 	case 1:
 		e.Inner, kind = io.EOF, "wraps-io.EOF"
 	case 2:
